@@ -213,12 +213,15 @@ package route
 //@ assume types.CoreFieldsUnmarshaler.UnmarshalMsgpEventMetadataOnly
 //@   modifies *payload
 
-//@ contract route.(*Router).batch props C23 havocheap
+//@ contract route.(*Router).batch props C23,C19,C24 havocheap
 //@   requires r != nil && req != nil
 //@   requires[distinct-sinks] toInt(refOf(r.UpstreamTransmission)) != toInt(refOf(r.PeerTransmission))
 //@   ensures[one-status-at-most] statusWrites(w) <= old(statusWrites(w)) + 1
 //@   ensures[error-status-means-nothing-processed] statusWrites(w) != old(statusWrites(w)) ==> procN(r) == old(procN(r))
 //@   ensures[one-body] bodyWrites(w) == old(bodyWrites(w)) + 1
+// C19: the key the events of a batch are routed under is the one the client sent - in X-Honeycomb-Team or, when that
+// header is empty, in its short form X-Hny-Team
+//@   loop 1 invariant[events-carry-the-key-the-client-sent@C19,C24,C23] apiKey == ite(hdr(req.Header, "X-Honeycomb-Team") == "", hdr(req.Header, "X-Hny-Team"), hdr(req.Header, "X-Honeycomb-Team"))
 //@   loop 1 invariant statusWrites(w) == old(statusWrites(w)) && bodyWrites(w) == old(bodyWrites(w)) && len(batchedResponses) == iter
 //@   modifies all(statusWrites), all(lastStatus), all(bodyWrites), all(procN), all(procErr), all(enqN), all(enqLast), all(enqHost), all(enqKey), all(enqDataset), all(enqProbe), all(owns), all(addedN), all(addedLast), all(bufN), all(immN), all(hdr)
 
